@@ -7,22 +7,29 @@
                         the global difference all_required - all_created;
      track_last_data : the type-flow check compares each data node with the last data-carrying
                         node before it, instead of only with an adjacent data node;
-     origin_last     : key_origin records the LAST creator of a key, not the first.
+     origin_last     : key_origin records the LAST creator of a key, not the first;
+     deleted_at_entry: the "requires a deleted key" check looks at the keys deleted BEFORE the node
+                        (instead of the set after the node's own suppression, minus its own keys).
    Definitions only. *)
 From Coq Require Import List String ZArith Bool Arith.
 From SV Require Import Common.Prelude Model.Pipeline.
 Import ListNotations.
 Open Scope string_scope.
 
-Record variant := mkVariant { order_sensitive : bool; track_last_data : bool; origin_last : bool }.
+Record variant := mkVariant { order_sensitive : bool; track_last_data : bool; origin_last : bool; deleted_at_entry : bool }.
 
 Definition inode := (node * dtype)%type.       (* node, declared output type (ignored for context processors) *)
 
 Definition is_ctx (n : node) : bool := match pr_kind (n_proc n) with KCtx => true | _ => false end.
 
+Definition sremove (k : string) (l : list string) : list string := filter (fun x => negb (String.eqb x k)) l.
+Definition sadd (k : string) (l : list string) : list string := if smem k l then l else (l ++ [k])%list.
+Definition sunion (a b : list string) : list string := fold_left (fun acc k => sadd k acc) b a.
+
+(* created keys as a set (no duplicates) *)
 Definition created_of (n : node) : list string :=
-  (pr_created (n_proc n) ++
-   match pr_kind (n_proc n), n_ckey n with KProbe, Some k => [k] | _, _ => [] end)%list.
+  sunion [] (pr_created (n_proc n) ++
+             match pr_kind (n_proc n), n_ckey n with KProbe, Some k => [k] | _, _ => [] end)%list.
 Definition suppressed_of (n : node) : list string := if is_ctx n then pr_suppressed (n_proc n) else [].
 Definition in_of (n : node) : option dtype := if is_ctx n then None else Some (pr_in (n_proc n)).
 Definition out_of (x : inode) : option dtype :=
@@ -61,9 +68,6 @@ Fixpoint nupdate (k : string) (v : nat) (m : list (string * nat)) : list (string
 Definition nsetdefault (k : string) (v : nat) (m : list (string * nat)) :=
   match nlookup k m with Some _ => m | None => nupdate k v m end.
 
-Definition sremove (k : string) (l : list string) : list string := filter (fun x => negb (String.eqb x k)) l.
-Definition sadd (k : string) (l : list string) : list string := if smem k l then l else (l ++ [k])%list.
-Definition sunion (a b : list string) : list string := fold_left (fun acc k => sadd k acc) b a.
 
 Definition classify (n : node) (st : istate) (name : string) : origin :=
   if has name (n_cfg n) then OConfig
@@ -104,7 +108,9 @@ Definition inspect_node (v : variant) (idx : nat) (x : inode) (st : istate) : nr
       let del1 := fold_left (fun d k => sremove k d) created (deleted st) in
       let supp := suppressed_of n in
       let del2 := sunion del1 supp in
-      let missing_deleted := filter (fun k => smem k del2 && negb (smem k supp)) required in
+      let missing_deleted :=
+        if deleted_at_entry v then filter (fun k => smem k (deleted st)) required
+        else filter (fun k => smem k del2 && negb (smem k supp)) required in
       let cfgish := (map fst (n_cfg n) ++ map fst (filter (fun p => match snd p with ODefault => true | _ => false end) origins))%list in
       let errs := if existsb (fun k => negb (smem k cfgish)) missing_deleted then ["deleted"] else [] in
       (mkNReport false [] origins created supp (in_of n) (out_of x) errs,
